@@ -50,6 +50,8 @@ def column0(kind, xs):
         return di.Vector(np.array([math.nan if v == NAV else v / 2 for v in xs], dtype=np.float32))
     if kind == "date":
         return di.Vector([None if v == NAV else BASE + datetime.timedelta(days=v) for v in xs], "datetime64[D]")
+    if kind == "timedelta":
+        return di.Vector(np.array(["NaT" if v == NAV else v for v in xs], dtype="timedelta64[s]"))
     if kind == "datetime":
         return di.Vector([None if v == NAV else datetime.datetime(2000, 1, 1, 12) + datetime.timedelta(hours=v) for v in xs],
                          "datetime64[us]")
